@@ -318,8 +318,9 @@ def grid_scripts():
 class Topo:
     """nets: {net: [station macs]}; routers: [[(net, mac), ...]]; modes: {(net, mac): 'none'|'addr'|'net'}; cyclic flag"""
 
-    def __init__(self, nets, routers, modes, cyclic=False):
+    def __init__(self, nets, routers, modes, cyclic=False, apps=()):
         self.nets, self.routers, self.modes, self.cyclic = nets, routers, modes, cyclic
+        self.apps = tuple(sorted(apps))      # routers that carry an application
         # node numbering: routers first, then stations in nets order
         self.station_ids = {}
         k = len(routers)
@@ -383,7 +384,7 @@ class Topo:
     def coq_world(self):
         nodes = []
         for ports in self.routers:
-            nodes.append('mkW %s [%s]' % (q_node(ports, False), ';'.join('(%d%%N, %s)' % (n, q_mac(m)) for n, m in ports)))
+            nodes.append('mkW %s [%s]' % (q_node(ports, len(nodes) in self.apps), ';'.join('(%d%%N, %s)' % (n, q_mac(m)) for n, m in ports)))
         for net, macs in self.nets.items():
             for mac in macs:
                 mode = self.modes.get((net, mac), 'net')
@@ -395,17 +396,18 @@ class Topo:
     def describe(self):
         return {'nets': {str(n): [bytes(m).hex() for m in ms] for n, ms in self.nets.items()},
                 'routers': [[[n, bytes(m).hex()] for n, m in ports] for ports in self.routers],
-                'modes': {'%d:%s' % (n, bytes(m).hex()): v for (n, m), v in self.modes.items()}, 'cyclic': self.cyclic}
+                'modes': {'%d:%s' % (n, bytes(m).hex()): v for (n, m), v in self.modes.items()}, 'cyclic': self.cyclic,
+                'apps': list(self.apps)}
 
     @staticmethod
     def from_desc(d):
         nets = collections.OrderedDict((int(n), [bytes.fromhex(m) for m in ms]) for n, ms in d['nets'].items())
         routers = [[(n, bytes.fromhex(m)) for n, m in ports] for ports in d['routers']]
         modes = {(int(k.split(':')[0]), bytes.fromhex(k.split(':')[1])): v for k, v in d['modes'].items()}
-        return Topo(nets, routers, modes, d.get('cyclic', False))
+        return Topo(nets, routers, modes, d.get('cyclic', False), d.get('apps', ()))
 
 
-def rnd_tree(rng, maxnets=8):
+def rnd_tree(rng, maxnets=8, apps=False):
     nnets = rng.randrange(2, maxnets + 1)
     numbers = rng.sample(range(1, 60), nnets)
     nets = collections.OrderedDict()
@@ -429,7 +431,7 @@ def rnd_tree(rng, maxnets=8):
             mac = bytes([m])
             nets[n].append(mac)
             modes[(n, mac)] = rng.choice(['net', 'net', 'addr', 'none'])
-    return Topo(nets, routers, modes)
+    return Topo(nets, routers, modes, apps=[rng.randrange(len(routers))] if apps else ())
 
 
 def ring(rng, k, tail=False):
@@ -450,7 +452,7 @@ def ring(rng, k, tail=False):
 
 # ------------------------------------------------------------------ world scripts
 def build(topo):
-    return I.Internet(topo.nets, topo.routers, topo.modes)
+    return I.Internet(topo.nets, topo.routers, topo.modes, router_apps=topo.apps)
 
 
 def node_of(net_obj, topo, who):
@@ -578,9 +580,15 @@ def rnd_world_script(rng, topo, nsend, limit):
         ev += warm_events(topo)
     keys = list(topo.station_ids)
     for k in range(nsend):
-        src = rng.choice(keys)
-        kind, dest, rec = rng.choice(all_dests(topo, src))
-        ev.append(('send', topo.station_ids[src], dest, bytes([k, rng.randrange(256)])))
+        if topo.apps and rng.random() < 0.35:
+            # the application on a router speaks
+            n2 = rng.choice(list(topo.nets))
+            dest = rng.choice([('gb',), ('lb',), ('rb', n2), ('rs', n2, rng.choice(topo.nets[n2]))])
+            ev.append(('send', rng.choice(topo.apps), dest, bytes([k, rng.randrange(256)])))
+        else:
+            src = rng.choice(keys)
+            kind, dest, rec = rng.choice(all_dests(topo, src))
+            ev.append(('send', topo.station_ids[src], dest, bytes([k, rng.randrange(256)])))
         if rng.random() < 0.8:
             ev.append(('run', limit))
             ev.append(('mark',))
@@ -591,17 +599,18 @@ def rnd_world_script(rng, topo, nsend, limit):
 def cases(rng, tier):
     out = []
     big = tier == 'thorough'
-    for ports, app, ev in (grid_scripts() if big else grid_scripts()[::3 if SCALE >= 1 else 12]):
+    for ports, app, ev in (grid_scripts() if big else grid_scripts()[::4 if SCALE >= 1 else 12]):
         out.append(case_script('node-grid', ports, app, ev))
-    for _ in range(_n(12000 if big else 2000)):
+    for _ in range(_n(12000 if big else 1600)):
         ports, app, ev = rnd_script(rng)
         out.append(case_script('node-script', ports, app, ev))
-    for _ in range(_n(1500 if big else 100)):
-        topo = rnd_tree(rng, 8 if rng.random() < 0.5 else 4)
+    for _ in range(_n(1500 if big else 90)):
+        topo = rnd_tree(rng, 8 if rng.random() < 0.5 else 4, apps=rng.random() < 0.4)
         out.append(case_world('tree-script', topo, rnd_world_script(rng, topo, rng.randrange(1, 6), 3000)))
     for _ in range(_n(60 if big else 12)):
         topo = ring(rng, rng.choice([3, 4]), tail=rng.random() < 0.4)
         out.append(case_world('ring-script', topo, rnd_world_script(rng, topo, rng.randrange(1, 3), 250)))
+    rng.shuffle(out)        # spread the expensive whole-trace cases evenly over the Coq shards
     return out
 
 
@@ -797,6 +806,57 @@ def check_hop_exhaustion(rng, k, h):
     return None
 
 
+def _names_non_local_port(topo, ri, local, replier_net, shown):
+    """is the source shown the address of a port of router ri other than its local adapter?"""
+    if shown[0] == 'ls':
+        n, m = replier_net, shown[1]
+    elif shown[0] == 'rs':
+        n, m = shown[1], shown[2]
+    else:
+        return False
+    return n != local and (n, m) in [(pn, bytes(pm)) for pn, pm in topo.routers[ri]]
+
+
+def check_router_app_origin(topo, ri, dest, payload):
+    """the application on router ri sends; every recipient replies to the source it was shown; the replies must
+    reach the router application (reply-routability clause with a router-resident originator)"""
+    net = build(topo)
+    apdu = b'\x10\x63' + payload
+    base = {'topology': topo.describe(), 'router': ri, 'dest': _jsonable(dest), 'payload': payload.hex()}
+    try:
+        net.routers[ri].send(dest, payload)
+        if I.drain_upto(WATCHDOG):
+            I.reset_tasks()
+            return [dict(base, kind='router-app-no-termination')]
+    except Exception as x:
+        I.reset_tasks()
+        return [dict(base, kind='router-app-exception', exc=repr(x)[:200])]
+    ups = [l for l in net.log if l[0] == 'up' and l[4] == apdu]
+    fails = []
+    local = net.routers[ri].nsap.local_adapter.adapterNet
+    for k, l in enumerate(ups):
+        if l[1][0] != 's':
+            continue
+        del net.log[:]
+        rp = b'\x10\x63' + bytes([0xee, k]) + payload
+        try:
+            net.stations[(l[1][1], l[1][2])].send(l[2], rp[2:])
+            if I.drain_upto(WATCHDOG):
+                I.reset_tasks()
+                fails.append(dict(base, kind='router-app-reply-no-termination', replier=str(l[1])))
+                break
+        except Exception as x:
+            I.reset_tasks()
+            fails.append(dict(base, kind='router-app-exception', exc=repr(x)[:200]))
+            break
+        got = [u[1] for u in net.log if u[0] == 'up' and u[4] == rp]
+        if got != [('r', ri)]:
+            fails.append(dict(base, kind='reply-to-router-application-lost', replier=[l[1][1], l[1][2].hex()], shown=str(l[2]),
+                              got=[str(g) for g in got], router_local_network=local,
+                              shown_names_non_local_port=_names_non_local_port(topo, ri, local, l[1][1], l[2])))
+    return fails
+
+
 def direct(rng, tier, focus=()):
     failures, samples = [], []
     hist = collections.Counter()
@@ -841,6 +901,17 @@ def direct(rng, tier, focus=()):
             nontriv.add((t, 'warm', k))
         if t == 0:
             samples.append({'direct': 'tree', 'topology': topo.describe(), 'combinations': len(triples)})
+    # --- an application that lives on a router
+    for t in range(_n(40 if big else 10)):
+        topo = rnd_tree(rng, 5, apps=True)
+        ri = topo.apps[0]
+        n2 = rng.choice(list(topo.nets))
+        for dest in [('gb',), ('rb', n2), ('rs', n2, topo.nets[n2][0])]:
+            fs = check_router_app_origin(topo, ri, dest, bytes([t, 0x77]))
+            failures.extend(fs)
+            n_eval += 1
+            hist['router-application/' + dest[0]] += 1
+            nontriv.add(('rapp', t, dest[0]))
     # --- hop count exhaustion on chains
     for k in (1, 2, 3, 5):
         for h in (0, 1, 2, 3, 4, 255):
@@ -909,6 +980,8 @@ def classify(f):
         return 'C06-ring-discovery-storm'
     if k == 'forwarded-back-onto-arrival-network' and f.get('next_hop_cached_on_arrival_network'):
         return 'C06-back-via-cached-router'
+    if k == 'reply-to-router-application-lost' and f.get('shown_names_non_local_port') and not f.get('got'):
+        return 'C06-router-application-unreachable-on-other-ports'
     return None
 
 
@@ -932,6 +1005,9 @@ def replay(payload):
     elif 'topology' in f and 'events' in f:
         topo = Topo.from_desc(f['topology'])
         print('implementation:', impl_world(topo, [_unjson(e) for e in f['events']])[0][:400])
+    elif 'router' in f and 'topology' in f:
+        topo = Topo.from_desc(f['topology'])
+        print('implementation:', check_router_app_origin(topo, f['router'], _unjson(f['dest']), bytes.fromhex(f['payload'])))
     elif 'chain' in f:
         import random
         print('implementation:', check_hop_exhaustion(random.Random(0), f['chain'], f['hop']))
